@@ -104,12 +104,13 @@ class Normaliser:
 
     def norm(self, t):
         k = t.get_id()
-        if k in self.cache:
-            return self.cache[k]
+        hit = self.cache.get(k)
+        if hit is not None and hit[0].eq(t):
+            return hit[1]
         r = self._norm(t)
         if len(r[0]) > self.max or len(r[1]) > self.max:
             raise TooBig()
-        self.cache[k] = r
+        self.cache[k] = (t, r)  # the term is kept alive: z3 reuses the ids of freed ASTs
         return r
 
     def cond_key(self, c):
